@@ -32,9 +32,11 @@ PROPOSED_FINDINGS = [
          region="the placement fills the bar EXACTLY (exact total == bar length) and the bar's history contains a "
                 "note length that is not a binary fraction (triplet, quintuplet, septuplet), so the float running "
                 "total carries rounding error; the library refuses",
-         what="place_notes tests `current_beat + 1.0/duration <= length` in floating point: a 4/4 bar refuses its "
-              "20th quintuplet sixteenth (current_beat 0.9500000000000003 although 20 x 1/20 == 1 exactly), a 12/8 "
-              "bar its 36th triplet sixteenth, a 4/4 bar its 6th triplet quarter after ... etc.",
+         what="place_notes tests `current_beat + 1.0/duration <= length` on the float running total: a 4/4 (and 2/2) "
+              "bar refuses its 20th quintuplet sixteenth (current_beat 0.9500000000000003 although 20 x 1/20 == 1 "
+              "exactly), a 12/8 bar its 36th triplet sixteenth (1.4583333333333337) and its 15th quintuplet eighth, a "
+              "3/4 bar its 15th quintuplet sixteenth, a 7/8 bar its 42nd triplet thirty-second, ... (60 of the "
+              "meter x single-value fills over 10 meters, and many mixed fills)",
          witness_code="from mingus.containers.bar import Bar\nfrom mingus.core import value\n"
                       "b = Bar('C', (4, 4))\n"
                       "res = [b.place_notes('C', value.quintuplet(16)) for i in range(20)]\n"
